@@ -43,6 +43,11 @@ class RecMaster(Master):
     def result_cb(self, tasks):
         for t in tasks:
             self.c20_results.append(copy.deepcopy(t))
+        # an application hook may trip over a result it did not expect (e.g. it reads a field of
+        # the return value of a call which failed): the results are handed on regardless
+        if getattr(self, 'c20_hook_trips', False) and \
+                any(t.get('exit_code') not in (0, None) or t.get('return_value') is None for t in tasks):
+            raise TypeError("'NoneType' object is not subscriptable")
 
     def request_cb(self, tasks):
         self.c20_requests.extend(t['uid'] for t in tasks)
@@ -124,6 +129,9 @@ def run_master_case(case):
     res = CaseResult()
     net = Net()
     m   = hollow_master(net)
+    m.c20_hook_trips = bool(case.get('hook_trips'))
+    if m.c20_hook_trips:
+        res.label('master:application_result_hook_raises')
 
     reqs = [r for r in case.get('reqs') or [] if isinstance(r, dict)]
     nxt  = 0
